@@ -21,7 +21,7 @@
 From Coq Require Import List NArith ZArith Bool.
 Import ListNotations.
 Require Import V.models.SnapSeq V.proofs.SnapSeqProofs V.proofs.SnapSeqProofs2 V.proofs.SnapSeqProofs3 V.proofs.SnapSeqProofs4
-               V.proofs.SnapSeqProofs5 V.proofs.SnapSeqProofs6 V.proofs.SnapSeqProofs7 V.proofs.SnapSeqProofs8.
+               V.proofs.SnapSeqProofs5 V.proofs.SnapSeqProofs6 V.proofs.SnapSeqProofs7 V.proofs.SnapSeqProofs8 V.proofs.SnapSeqProofs9.
 Open Scope N_scope.
 
 Theorem C11_invariant_content : forall s : st, wf s ->
@@ -62,6 +62,33 @@ Theorem C11_consistent_invariant : forall (hs : list hstep),
   (forall h, In h hs -> (2 <= h_retain h)%Z) -> wf (hplay hs empty).
 Proof. intros hs R. apply history_wf_all; [exact wf_empty|exact R]. Qed.
 Print Assumptions C11_consistent_invariant.
+
+(* handlers that fail midway and are retried.  doDiscardSnap is the handler that answers state.Retry (a failed
+   RemoveSnapFiles) and is then run again from the top on whatever the first attempt left in the state.  Its effects in order
+   (discard_plan: RemoveSnapFiles, DeleteSnapConfig for the last revision, DiscardRevisionConfig, and LAST the write of the
+   trimmed record computed from the state read at the start) make up the handler (C11_discard_effects), and re-running it
+   after a failure at any internal point reaches the same state as one undisturbed run.  PARTIAL with respect to `every
+   handler`: the other handlers of the model have no recorded effect before their first backend call (unlink-snap,
+   unlink-current-snap, link-snap, clear-snap: the driver injects failures of those calls and finds the change undone as if
+   the task had failed before starting); re-runs after a restart are not modelled. *)
+Theorem C11_discard_effects : forall (r : N) (s : st), discard_run r s (discard_plan r s) s = do_discard r s.
+Proof. exact discard_plan_is_discard. Qed.
+Print Assumptions C11_discard_effects.
+
+Theorem C11_handlers_retry_idempotent : forall (r : N) (s : st) (i : nat),
+  (i < length (discard_plan r s))%nat ->
+  do_discard r (discard_run r s (firstn i (discard_plan r s)) s) = do_discard r s.
+Proof. exact discard_retry_idempotent. Qed.
+Print Assumptions C11_handlers_retry_idempotent.
+
+(* why the write of the trimmed record has to come last: written before RemoveSnapFiles, a retry would start from ONE kept
+   revision and take the last-revision shortcut: kept [1,2], discarding 1 — the snap is gone from the state while
+   revision 2 is still mounted and linked *)
+Example C11_retry_needs_set_last :
+  let s := mkSt [1;2] 2 true 1 false false false false false 0 2 0 [] 5 [] [1;2] 2 in
+  let early := apply_deffect 1 s s ESet in
+  seq (do_discard 1 s) = [2] /\ seq (do_discard 1 early) = [] /\ mounted (do_discard 1 early) = [2] /\ link (do_discard 1 early) = 2.
+Proof. exact retry_needs_set_last. Qed.
 
 (* non-vacuity: install 1, refresh to 2, refresh to 3 failing after the last task (revision 1 is already garbage-collected),
    refresh to 3, revert to 2, disable, remove --revision 2 (the current one): kept [3], current 3 *)
